@@ -67,6 +67,7 @@ type docOpts struct {
 	Sig       bool // add a signature field + signature dictionary
 	Private   bool // add private (non-standard) keys pointing to string-carrying objects
 	ExtraStrs [][]byte // extra byte strings placed in a private array (boundary lengths etc.)
+	Twice     bool     // objects reachable twice on the write path: first page listed twice in /Kids, one annotation and one resource dict shared by two pages, inline (direct) annotation dicts with strings in the page dict
 	Crypt     string   // streams with crypt filters on: "embedded", "xobject", "content", "metadata" (comma separated)
 	Pages     int
 }
@@ -156,6 +157,12 @@ func buildDoc(rnd *rand.Rand, name string, o docOpts) genDoc {
 			}
 		}
 	}
+	sharedAnnot, sharedRes := 0, 0
+	if o.Twice {
+		sharedAnnot, sharedRes = alloc(), alloc()
+		objs[sharedAnnot] = fmt.Sprintf("<< /Type /Annot /Subtype /Text /Rect [300 300 320 320] /Contents (%s) /T (%s) >>", mk("shared-annot-contents"), mk("shared-annot-T"))
+		objs[sharedRes] = fmt.Sprintf("<< /Font << /F1 %d 0 R >> /Properties << /MC0 << /VerifTitle (%s) /VerifArr [(%s)] >> >> >>", font, mk("shared-resources-string"), mk("shared-resources-array-string"))
+	}
 	var kids []string
 	var firstPage int
 	for p := 0; p < o.Pages; p++ {
@@ -164,6 +171,9 @@ func buildDoc(rnd *rand.Rand, name string, o docOpts) genDoc {
 			firstPage = pg
 		}
 		kids = append(kids, fmt.Sprintf("%d 0 R", pg))
+		if o.Twice && p == 0 {
+			kids = append(kids, fmt.Sprintf("%d 0 R", pg)) // the same page object a second time
+		}
 		content := fmt.Sprintf("BT /F1 12 Tf 50 700 Td (%s) Tj ET\n", mk("page-content-stream"))
 		objs[ct] = fmt.Sprintf("<< /Length %d >>\nstream\n%sendstream", len(content), content)
 		annots := fmt.Sprintf("%d 0 R", an)
@@ -173,7 +183,17 @@ func buildDoc(rnd *rand.Rand, name string, o docOpts) genDoc {
 				annots += fmt.Sprintf(" %d 0 R", sigfld)
 			}
 		}
+		resources := fmt.Sprintf("<< /Font << /F1 %d 0 R >>%s >>", font, "%XRES%")
+		if o.Twice {
+			// direct annotation dictionaries with strings inside the page dict itself, a shared indirect one, shared resources
+			annots += fmt.Sprintf(" %d 0 R << /Type /Annot /Subtype /Text /Rect [10 10 30 30] /Contents (%s) /T (%s) /NM <%s> >>",
+				sharedAnnot, mk("page-inline-annot-contents"), mk("page-inline-annot-T"), hex.EncodeToString([]byte(mk("page-inline-annot-NM-hex"))))
+			resources = fmt.Sprintf("%d 0 R", sharedRes)
+		}
 		privEntries := ""
+		if o.Twice {
+			privEntries = fmt.Sprintf(" /LastModified (D:20240101120000Z) /PZ 1 /Tabs /S /VerifPageStr (%s)", mk("page-direct-string"))
+		}
 		if o.Private && p == 0 {
 			privEntries = fmt.Sprintf(" /PieceInfo << /Verif << /LastModified (D:20200101000000Z) /Private << /Inline (%s) /Ref %d 0 R >> >> >>",
 				mk("pieceinfo-direct-string"), priv)
@@ -185,8 +205,8 @@ func buildDoc(rnd *rand.Rand, name string, o docOpts) genDoc {
 		if p == 0 && extraXObj != "" {
 			xres = " /XObject <<" + extraXObj + " >>"
 		}
-		objs[pg] = fmt.Sprintf("<< /Type /Page /Parent %d 0 R /MediaBox [0 0 612 792] /Contents %s /Resources << /Font << /F1 %d 0 R >>%s >> /Annots [%s]%s >>",
-			pages, contents, font, xres, annots, privEntries)
+		objs[pg] = fmt.Sprintf("<< /Type /Page /Parent %d 0 R /MediaBox [0 0 612 792] /Contents %s /Resources %s /Annots [%s]%s >>",
+			pages, contents, strings.Replace(resources, "%XRES%", xres, 1), annots, privEntries)
 		annPriv := ""
 		if o.Private && p == 0 {
 			annPriv = fmt.Sprintf(" /VerifPriv %d 0 R /VerifPrivStr %d 0 R /VerifPrivHex %d 0 R", priv, privstr, privhex)
@@ -199,8 +219,10 @@ func buildDoc(rnd *rand.Rand, name string, o docOpts) genDoc {
 			mk("annot-contents"), hx(mk("annot-T-hex")), mk("annot-NM"), pg, annPriv, ex.String(), mk("annot-direct-dict-string"), mk("annot-direct-array-string"))
 	}
 	af := fmt.Sprintf("%d 0 R", field)
+	tsfld, tsdict := 0, 0
 	if o.Sig {
-		af += fmt.Sprintf(" %d 0 R", sigfld)
+		tsfld, tsdict = alloc(), alloc()
+		af += fmt.Sprintf(" %d 0 R %d 0 R", sigfld, tsfld)
 	}
 	sigflags := ""
 	if o.Sig {
@@ -208,7 +230,7 @@ func buildDoc(rnd *rand.Rand, name string, o docOpts) genDoc {
 	}
 	objs[catalog] = fmt.Sprintf("<< /Type /Catalog /Pages %d 0 R /Metadata %d 0 R /Outlines %d 0 R /Names << /EmbeddedFiles << /Names [(%s) %d 0 R%s] >> >> /AcroForm << /Fields [%s] /DA (/F1 0 Tf 0 g)%s /DR << /Font << /F1 %d 0 R >> >> >> >>",
 		pages, meta, outl, mk("nametree-key"), fspec, extraNames, af, sigflags, font)
-	objs[pages] = fmt.Sprintf("<< /Type /Pages /Count %d /Kids [%s] >>", o.Pages, strings.Join(kids, " "))
+	objs[pages] = fmt.Sprintf("<< /Type /Pages /Count %d /Kids [%s] >>", len(kids), strings.Join(kids, " "))
 	objs[info] = fmt.Sprintf("<< /Title (%s) /Author %s /Subject (%s) /VerifCustom (%s) >>",
 		mk("info-title"), hx(mk("info-author-hex")), mk("info-subject"), mk("info-custom-key"))
 	var extra strings.Builder
@@ -241,6 +263,15 @@ func buildDoc(rnd *rand.Rand, name string, o docOpts) genDoc {
 			mk("sigfield-T"), sigdict, firstPage)
 		objs[sigdict] = fmt.Sprintf("<< /Type /Sig /Filter /Adobe.PPKLite /SubFilter /adbe.pkcs7.detached /ByteRange [0 0 0 0] /Contents <%s> /Reason (%s) /Name (%s) /Location (%s) /M (D:20240101120000Z) >>",
 			hex.EncodeToString(sigBytes), mk("sig-Reason"), mk("sig-Name"), mk("sig-Location"))
+		// a document time stamp: /Type /DocTimeStamp, the second kind of dictionary whose /Contents is exempt
+		tm := newMarker(rnd, "doctimestamp-contents")
+		tm.Sig = true
+		g.Markers = append(g.Markers, tm)
+		tsBytes := append([]byte(tm.Text), bytes.Repeat([]byte{0x30, 0x82, 0x01}, 11)...)
+		objs[tsfld] = fmt.Sprintf("<< /Type /Annot /Subtype /Widget /FT /Sig /T (%s) /V %d 0 R /Rect [0 0 0 0] /P %d 0 R /F 132 >>",
+			mk("tsfield-T"), tsdict, firstPage)
+		objs[tsdict] = fmt.Sprintf("<< /Type /DocTimeStamp /Filter /Adobe.PPKLite /SubFilter /ETSI.RFC3161 /ByteRange [0 0 0 0] /Contents <%s> >>",
+			hex.EncodeToString(tsBytes))
 	}
 
 	var buf bytes.Buffer
